@@ -27,6 +27,9 @@ def run(prog, R, tier="quick", only_rule=None):
     c05d(prog, R)
     c05e(prog, R)
     c05f(prog, R)
+    # never an unopenable directory: `current` must not end up naming a version file the version GC has unlinked
+    from rules.props import c04
+    c04.c04g(prog, R, rid="C05.g")
 
 
 def dirsync_set(prog):
